@@ -8,12 +8,16 @@ package main
 
 import (
 	"bufio"
+	"context"
+	"encoding/json"
 	"flag"
 	"fmt"
 	"math/rand"
 	"net/http"
 	"net/http/httptest"
+	"net/url"
 	"os"
+	"regexp"
 	"sort"
 	"strings"
 	"testing/synctest"
@@ -378,6 +382,7 @@ func runRetry(args []string) error {
 		chainCfgs = append(chainCfgs, ckConfig{secure: strings.HasPrefix(ing[0], "https"), sameSite: "Lax", prefix: defaultPrefix, ingresses: ing, logins: 5, window: 5 * time.Second})
 	}
 	chainCfgs = append(chainCfgs,
+		ckConfig{secure: true, sameSite: "Lax", prefix: "my.prefix", ingresses: []string{"https://app.example.com/app"}, logins: 5, window: 5 * time.Second},
 		ckConfig{secure: true, sameSite: "Lax", prefix: defaultPrefix, ingresses: []string{"https://sso.example.com"}, sso: true, domain: "example.com", name: "sso-session", logins: 5, window: 5 * time.Second},
 		ckConfig{secure: true, sameSite: "None", prefix: defaultPrefix, ingresses: []string{"https://sso.example.com/app"}, sso: true, domain: "example.com", name: "sso-session", logins: 5, window: 5 * time.Second})
 	nrandom := 4
@@ -399,8 +404,27 @@ func runRetry(args []string) error {
 				if !enabled && (logins != 1 || window != time.Second) {
 					continue
 				}
-				for _, ing := range [][]string{{"https://app.example.com"}, {"https://app.example.com/app"}} {
-					cfg := ckConfig{secure: true, sameSite: "Lax", prefix: defaultPrefix, ingresses: ing, rl: enabled, logins: logins, window: window}
+				// cookie names as cmd/wonderwall/main.go derives them (runScripts sets and restores the package variables of
+				// pkg/cookie around each configuration exactly as main.go sets them): default names, a custom cookie.prefix,
+				// SSO mode with sso.session-cookie-name (with and without a custom prefix that SSO mode overrides)
+				rlCfgs := []ckConfig{
+					{secure: true, sameSite: "Lax", prefix: defaultPrefix, ingresses: []string{"https://app.example.com"}},
+					{secure: true, sameSite: "Lax", prefix: defaultPrefix, ingresses: []string{"https://app.example.com/app"}},
+				}
+				if window == time.Second || window == 1500*time.Millisecond {
+					rlCfgs = append(rlCfgs,
+						ckConfig{secure: true, sameSite: "Lax", prefix: "my.prefix", ingresses: []string{"https://app.example.com/app"}},
+						ckConfig{secure: true, sameSite: "Lax", prefix: defaultPrefix, ingresses: []string{"https://sso.example.com"},
+							sso: true, domain: "example.com", name: "sso-session"})
+					if logins == 5 {
+						rlCfgs = append(rlCfgs,
+							ckConfig{secure: true, sameSite: "None", prefix: "x", ingresses: []string{"https://app.example.com"}},
+							ckConfig{secure: true, sameSite: "Lax", prefix: "ignored.prefix", ingresses: []string{"https://sso.example.com/sso"},
+								sso: true, domain: ".example.com", name: "n"})
+					}
+				}
+				for _, cfg := range rlCfgs {
+					cfg.rl, cfg.logins, cfg.window = enabled, logins, window
 					scripts, gaps, sess := rateLimitScripts(cfg, rng)
 					// run, then derive the abstract rate-limit lines (crl) from the same real responses
 					var inBuf, implBuf strings.Builder
@@ -450,5 +474,220 @@ func runRetry(args []string) error {
 	for _, k := range keys {
 		fmt.Fprintf(os.Stderr, "retry: %s=%d\n", k, counts[k])
 	}
+	return nil
+}
+
+// ---------------------------------------------------------------- request-target forms on the error paths (C04, C17)
+
+func init() {
+	register("retryloc", "C04/C17: every interactive endpoint x failure cause x request-target FORM (origin, absolute for the ingress / a foreign host, "+
+		"scheme without authority, doubled slash, foreign Host header) x X-Forwarded-Host: status and Location of every answer, retry redirects followed", runRetryLoc)
+}
+
+// rtForm is one way of writing the request line (and Host header) for a path-and-query pq on an ingress scheme://hostport.
+type rtForm struct {
+	name   string
+	target func(scheme, hostport, pq string) string
+	host   func(hostport string) string // Host header sent
+}
+
+var rtForms = []rtForm{
+	{"origin-form", func(s, h, pq string) string { return pq }, func(h string) string { return h }},
+	{"absolute-form naming the ingress", func(s, h, pq string) string { return s + "://" + h + pq }, func(h string) string { return h }},
+	{"absolute-form naming a foreign host", func(s, h, pq string) string { return "http://evil.example" + pq }, func(h string) string { return h }},
+	{"absolute-form naming a foreign host (https, port)", func(s, h, pq string) string { return "https://evil.example:8443" + pq }, func(h string) string { return h }},
+	{"absolute-form naming a foreign host (upper case)", func(s, h, pq string) string { return "HTTP://EVIL.EXAMPLE" + pq }, func(h string) string { return h }},
+	{"absolute-form, ingress host as userinfo of a foreign host", func(s, h, pq string) string { return s + "://" + h + "@evil.example" + pq }, func(h string) string { return h }},
+	{"absolute-form naming a foreign host, foreign Host header", func(s, h, pq string) string { return "http://evil.example" + pq }, func(h string) string { return "evil.example" }},
+	{"origin-form, foreign Host header", func(s, h, pq string) string { return pq }, func(h string) string { return "evil.example" }},
+	{"scheme without authority", func(s, h, pq string) string { return "http:" + pq }, func(h string) string { return h }},
+	{"scheme with empty authority", func(s, h, pq string) string { return "http://" + pq }, func(h string) string { return h }},
+	{"doubled leading slash (scheme-relative look-alike)", func(s, h, pq string) string { return "//evil.example" + pq }, func(h string) string { return h }},
+}
+
+type rtLocRec struct {
+	Mode      string            `json:"mode"`
+	Ingresses []string          `json:"ingresses"`
+	Defaults  map[string]string `json:"configured_defaults"` // provider issuer, post-logout URI, SSO default redirect URL
+	Chain     int               `json:"chain"`
+	Step      int               `json:"step"`
+	Form      string            `json:"request_target_form"`
+	Target    string            `json:"request_target"`
+	HostHdr   string            `json:"host_header"`
+	XFH       string            `json:"x_forwarded_host"`
+	Endpoint  string            `json:"endpoint"`
+	Fault     string            `json:"fault"`
+	Session   bool              `json:"browser_has_session"`
+	BrowserAt string            `json:"browser_url"` // the URL the cookie-keeping browser believes to be at: ingress origin + path
+	ReqHost   string            `json:"go_request_host"`
+	Status    int               `json:"status"`
+	Location  string            `json:"location"`
+	RetryHref []string          `json:"error_page_links"`
+}
+
+var hrefRe = regexp.MustCompile(`href="([^"]*)"`)
+
+// sendTarget sends one GET with the given request line through net/http's own request parser (the way a server reads it from
+// the wire) with the jar's cookies for the URL the browser believes to be at; ok=false when net/http rejects the request line.
+func (b *ckBrowser) sendTarget(target, hostHdr, xfh, pq, ep, fault string) (rec *httptest.ResponseRecorder, r *http.Request, ok bool) {
+	raw := "GET " + target + " HTTP/1.1\r\nHost: " + hostHdr + "\r\n"
+	if xfh != "" {
+		raw += "X-Forwarded-Host: " + xfh + "\r\n"
+	}
+	raw += "\r\n"
+	r, err := http.ReadRequest(bufio.NewReader(strings.NewReader(raw)))
+	if err != nil {
+		return nil, nil, false
+	}
+	navHeaders(r)
+	u, err := url.Parse(b.base() + pq)
+	if err != nil {
+		return nil, nil, false
+	}
+	for _, c := range b.jar.Cookies(u) {
+		r.AddCookie(c)
+	}
+	undo, cancelAfter := b.arrange(ep, fault)
+	if cancelAfter > 0 {
+		ctx, cancel := context.WithCancel(r.Context())
+		defer cancel()
+		t := time.AfterFunc(cancelAfter, cancel)
+		defer t.Stop()
+		r = r.WithContext(ctx)
+	}
+	rec = httptest.NewRecorder()
+	b.s.mainRt.ServeHTTP(rec, r)
+	undo()
+	b.jar.SetCookies(u, rec.Result().Cookies())
+	return rec, r, true
+}
+
+func runRetryLoc(args []string) error {
+	fs := flag.NewFlagSet("retryloc", flag.ExitOnError)
+	out := fs.String("out", "retryloc", "output prefix")
+	_ = fs.Int64("seed", 1, "PRNG seed (unused: the sweep is a full product)")
+	tier := fs.String("tier", "quick", "quick|thorough")
+	ckModelFlags(fs)
+	fs.Parse(args)
+	f, err := os.Create(*out + ".jsonl")
+	if err != nil {
+		return err
+	}
+	defer f.Close()
+	w := bufio.NewWriterSize(f, 1<<20)
+	defer w.Flush()
+
+	cfgs := []ckConfig{
+		{secure: true, sameSite: "Lax", prefix: defaultPrefix, ingresses: []string{"https://app.example.com"}, logins: 5, window: 5 * time.Second},
+		{secure: true, sameSite: "Lax", prefix: defaultPrefix, ingresses: []string{"https://app.example.com/app", "https://other.example.com/other"}, logins: 5, window: 5 * time.Second},
+		{secure: true, sameSite: "Lax", prefix: defaultPrefix, ingresses: []string{"https://sso.example.com"}, sso: true, domain: "example.com", name: "sso-session", logins: 5, window: 5 * time.Second},
+	}
+	if *tier == "thorough" {
+		cfgs = append(cfgs, ckConfig{secure: false, sameSite: "Lax", prefix: defaultPrefix, ingresses: []string{"http://localhost:8080"}, logins: 5, window: 5 * time.Second})
+	}
+	type epFault struct {
+		ep, sub, query, fault string
+		session               bool
+	}
+	plan := []epFault{
+		{"L", "/login", "", "n", false}, {"L", "/login", "?redirect=/x%3Fy", "n", false},
+		{"L", "/login", "", "e500", false}, {"L", "/login", "?redirect=/x", "e500.5", false}, {"L", "/login", "", "e500.m", false}, {"L", "/login", "", "e500.r", false},
+		{"L", "/login", "", "n", true},
+		{"C", "/callback", "?code=whatever&state=bogus", "e401", false}, {"C", "/callback", "?error=access_denied&state=x", "e401", false},
+		{"O", "/logout", "", "n", false}, {"O", "/logout", "?redirect=/bye", "n", true}, {"O", "/logout", "", "e500.s", true}, {"O", "/logout", "", "e500.st", true},
+		{"B", "/logout/callback", "", "n", false},
+		{"K", "/logout/local", "", "n", true}, {"K", "/logout/local", "", "e500.s", true}, {"K", "/logout/local", "", "e500.sc", true},
+		{"F", "/logout/frontchannel", "", "s", false},
+	}
+	if *tier == "thorough" {
+		plan = append(plan, epFault{"L", "/login", "", "e500.t", false}, epFault{"L", "/login", "", "e500.x", false})
+	}
+	nChain, nReq, nRejected := 0, 0, 0
+	for _, cfg := range cfgs {
+		sharedKeys()
+		restore := cfg.configureNames()
+		var runErr error
+		synctest.Run(func() {
+			s, e := newStack(cfg.stackOpts())
+			if e != nil {
+				runErr = e
+				return
+			}
+			defer s.close()
+			mode := "standalone"
+			if cfg.sso {
+				mode = "sso-server"
+			}
+			defaults := map[string]string{"provider": idpIssuer, "post_logout_redirect_uri": s.cfg.OpenID.PostLogoutRedirectURI}
+			if cfg.sso {
+				defaults["sso_server_default_redirect_url"] = s.cfg.SSO.ServerDefaultRedirectURL
+			}
+			h := hostsOf(cfg)[0]
+			p := h.paths[0]
+			scheme := "http"
+			if h.https {
+				scheme = "https"
+			}
+			for _, form := range rtForms {
+				for _, xfh := range []string{"", h.hostport} {
+					for _, pl := range plan {
+						b := newBrowser(s, h.https, h.hostport)
+						if pl.session {
+							if r := b.request("L", p+"/oauth2/login", "n", false); r.status != http.StatusFound {
+								runErr = fmt.Errorf("retryloc: login start %d", r.status)
+								return
+							}
+							if r := b.request("C", p+"/oauth2/callback", "n", false); r.status != http.StatusFound {
+								runErr = fmt.Errorf("retryloc: callback %d", r.status)
+								return
+							}
+						}
+						nChain++
+						pq, ep := p+"/oauth2"+pl.sub+pl.query, pl.ep
+						for step := 0; step < 6; step++ {
+							target := form.target(scheme, h.hostport, pq)
+							rec, r, ok := b.sendTarget(target, form.host(h.hostport), xfh, pq, ep, pl.fault)
+							if !ok {
+								nRejected++
+								break
+							}
+							nReq++
+							var hrefs []string
+							if strings.Contains(rec.Body.String(), "<!DOCTYPE html>") {
+								for _, m := range hrefRe.FindAllStringSubmatch(rec.Body.String(), -1) {
+									hrefs = append(hrefs, m[1])
+								}
+							}
+							loc := rec.Header().Get("Location")
+							j, _ := json.Marshal(rtLocRec{Mode: mode, Ingresses: cfg.ingresses, Defaults: defaults, Chain: nChain, Step: step, Form: form.name,
+								Target: target, HostHdr: form.host(h.hostport), XFH: xfh, Endpoint: ep, Fault: pl.fault, Session: pl.session,
+								BrowserAt: b.base() + pq, ReqHost: r.Host, Status: rec.Code, Location: loc, RetryHref: hrefs})
+							w.Write(j)
+							w.WriteByte('\n')
+							if rec.Code != http.StatusTemporaryRedirect {
+								break
+							}
+							// the cookie-keeping browser follows the automatic retry: same way of writing the request line, the path
+							// and query the Location names
+							lu, err := url.Parse(loc)
+							if err != nil {
+								break
+							}
+							pq = lu.EscapedPath()
+							if lu.RawQuery != "" {
+								pq += "?" + lu.RawQuery
+							}
+							ep = epOfPath(lu.Path)
+						}
+					}
+				}
+			}
+		})
+		restore()
+		if runErr != nil {
+			return runErr
+		}
+	}
+	fmt.Fprintf(os.Stderr, "retryloc: %d configurations, %d chains, %d requests, %d request lines rejected by net/http\n", len(cfgs), nChain, nReq, nRejected)
 	return nil
 }
